@@ -1642,7 +1642,8 @@ def r04q(rep, F, must, may):
     rep.rule('R04q', 'answers of the solution registry are not used across a registration: a local that holds the result of a '
                      'ProblemDefinition query (hasSolution, hasExactSolution, hasApproximateSolution, hasOptimizedSolution, getSolutionCount, '
                      'getSolutionDifference, getSolutionPath, getSolutions) is not read on any path after a call that adds or clears solution '
-                     'paths (addSolutionPath, clearSolutionPaths, or a planner function that may add one) unless it was assigned again.  A '
+                     'paths (addSolutionPath, clearSolutionPaths, or a planner function that may add one) inside a loop that does not take the answer '
+                     'again (a straight-line "what did the registry say before I added my path" snapshot is deliberate and is not reported).  A '
                      'stale answer hoisted out of a loop that registers solutions makes every later iteration act on the registry as it was: '
                      'a worse solution found later overwrites the tracked best cost')
     n = 0
@@ -1657,6 +1658,21 @@ def r04q(rep, F, must, may):
             rep.add('R04q', f.name, 'registry-answers-fresh', True, f.loc, 'every registry query is used where it is made (no snapshot)', nontrivial=False)
             continue
         paths.run_function(f, cl, F)
+        # only the hoisting shape is an error: the answer was taken OUTSIDE a loop whose body both registers / clears solutions and reads it.
+        # A straight-line "what did the registry say before I added my path" snapshot is deliberate and stays silent.
+        def hoisted(kk, nid):
+            for a in f.ancestors(nid):
+                if a['k'] not in ('ForStmt', 'WhileStmt', 'DoStmt', 'CXXForRangeStmt'):
+                    continue
+                inside = list(f.walk(a['id']))
+                mut = any(x.get('callee') and (x['callee'].split('::')[-1] in REGISTRY_MUTATORS and 'ProblemDefinition' in x['callee'] or x['callee'] in may)
+                          for x in inside)
+                retaken = any((x['k'] == 'DeclStmt' and any('%s#%d' % (d['name'], d['did']) == kk for d in x.get('decls', []))) or
+                              (x['k'] == 'BinaryOperator' and x.get('op') == '=' and key(f, x['ch'][0]) == kk) for x in inside)
+                if mut and not retaken:
+                    return True
+            return False
+        cl.bad = [b for b in cl.bad if hoisted(b[0], b[1])]
         ok = not cl.bad
         rep.add('R04q', f.name, 'registry-answers-fresh', ok, f.where(cl.bad[0][1]) if cl.bad else f.loc,
                 'snapshots %s are re-taken before every use that follows a registration' % sorted(nofp(k_) for k_ in cl.snaps) if ok else
